@@ -46,6 +46,29 @@ CLAIMS = {
              "under Ready(None) with the buffer moved out of the struct, that buffer length == queue capacity, that the queue is closed, "
              "and that Ready values come only from the taken buffer or the drained Err payload.",
         note=TB + "Leans on C02 R2.1/R2.4 (re-evaluated in this check). One genuine defect found by R7.1 was repaired (fix: db5f447)."),
+    "C03": dict(
+        technique="custom MIR analysis: per-path call counting of ref-count operations over the waker vtable, atomic-ordering table, alloc/free who-may + layout provenance, pointer-arithmetic agreement, call-graph receiver audit",
+        text="Decides the protocol shape of the shared waker allocation on every path: count +1/-1 per vtable entry, free exactly on the "
+             "'was last' edge from exactly the two release sites, minimal atomic orderings, alloc/dealloc with the same layout function over "
+             "the same capacity, header<->item pointer arithmetic agreement (index written == offset used, stub at cap, cap+1 items), "
+             "dequeue/registration reachable only through exclusive receivers, no Clone, Send/Sync surface. Data-race freedom as a "
+             "whole-program fact and dependency internals are NOT decided.",
+        note=TB + "Undecided: absence of data races under all interleavings; cordyceps/diatomic-waker/spin internals."),
+    "C04": dict(
+        technique="custom MIR analysis: counter-role inference + closure-capture resolution, dominating-comparison check at every yield, XOR-store set agreement between sibling implementations",
+        text="Decides the order discipline structurally: wrapper index from incoming (before exactly one +1) or outgoing (after exactly one -1), "
+             "FromIterator numbering, every ordered yield dominated by index==outgoing with exactly one outgoing+=1, re-base stores share one "
+             "constant and cover heap entries, all live tasks of all groups, and both counters (bounded/unbounded agree), min-heap Ord, "
+             "join_all writes slot i of the drained tuple, adapters only push_back. Contiguity of the wrapping window for all counter values "
+             "(numeric) is NOT decided.",
+        note=TB + "Assumes fewer than 2^63 held futures."),
+    "C08": dict(
+        technique="type-shape analysis over all struct fields (inline-holder fixed point) + crate-wide audit of every use of &mut Slot / &mut [Slot] + public-signature audit",
+        text="Decides in full (modulo Pin/Box<[T]>/pin-project-lite semantics) that children live only in Pin<Box<[Slot<F>]>> which is "
+             "never replaced or resized, that only the frozen table of types holds a type parameter inline, that manual Unpin impls are on "
+             "types with boxed children only, that unpinned references to slot storage are only inspected / re-pinned and never moved out "
+             "of, assigned through or passed to move/swap/copy APIs, and that no public signature hands out a child by value or by &mut.",
+        note=TB),
 }
 
 NOT_APPLICABLE = {}
